@@ -148,7 +148,8 @@ Section HeapP5.
     hwf h2 /\ h_next h2 = Pos.succ (h_next h) /\
     abs_circ h2 pp = app_spec (abs_circ h pp) [abs_comp 2 h1 (h_next h)] /\
     spec_cells h2 (rd_list h2 (hc_spec pp)) = spec_cells h (rd_list h (hc_spec pp)) ++ comp_cells 2 h1 (h_next h) /\
-    (forall b, b <> hc_spec pp -> hget h2 b = hget h1 b).
+    (forall b, b <> hc_spec pp -> hget h2 b = hget h1 b) /\
+    rd_list h2 (hc_spec pp) = rd_list h (hc_spec pp) ++ [h_next h].
   Proof.
     intros Hw Hc Hs Hfz Hx Hxc h1 h2.
     destruct (cwf_fields h pp Hc) as (L1 & L2 & L3 & L4 & L5 & L6).
@@ -179,7 +180,7 @@ Section HeapP5.
       unfold abs_list at 1. rewrite map_app. fold (abs_list h2 l). rewrite A1. cbn [map]. rewrite B1.
       unfold rd_dict, rd_nats.
       rewrite !G2, !G1; try assumption; try reflexivity; intros E; apply S1; rewrite <- E; simpl; auto 6. }
-    split; [|exact G2].
+    split; [|split; [exact G2|exact R2]].
     rewrite R2. unfold spec_cells at 1. rewrite flat_map_app. fold (spec_cells h2 l). rewrite A2.
     cbn [flat_map]. rewrite app_nil_r, B2. reflexivity.
   Qed.
